@@ -85,9 +85,6 @@ Properties/C01.vos Properties/C01.vok Properties/C01.required_vos: Properties/C0
 Properties/C03.vo Properties/C03.glob Properties/C03.v.beautified Properties/C03.required_vo: Properties/C03.v Compiler/Compile.vo Proofs/EmitProofs.vo Proofs/EmitInv.vo Proofs/VarProofs.vo Proofs/PassThroughProofs.vo Proofs/DynamicProofs.vo
 Properties/C03.vio: Properties/C03.v Compiler/Compile.vio Proofs/EmitProofs.vio Proofs/EmitInv.vio Proofs/VarProofs.vio Proofs/PassThroughProofs.vio Proofs/DynamicProofs.vio
 Properties/C03.vos Properties/C03.vok Properties/C03.required_vos: Properties/C03.v Compiler/Compile.vos Proofs/EmitProofs.vos Proofs/EmitInv.vos Proofs/VarProofs.vos Proofs/PassThroughProofs.vos Proofs/DynamicProofs.vos
-Properties/C02.vo Properties/C02.glob Properties/C02.v.beautified Properties/C02.required_vo: Properties/C02.v Base/GoStr.vo Proofs/EscapeProofs.vo Compiler/Emit.vo Proofs/EmitProofs.vo Proofs/DynamicProofs.vo Proofs/SegProofs.vo
-Properties/C02.vio: Properties/C02.v Base/GoStr.vio Proofs/EscapeProofs.vio Compiler/Emit.vio Proofs/EmitProofs.vio Proofs/DynamicProofs.vio Proofs/SegProofs.vio
-Properties/C02.vos Properties/C02.vok Properties/C02.required_vos: Properties/C02.v Base/GoStr.vos Proofs/EscapeProofs.vos Compiler/Emit.vos Proofs/EmitProofs.vos Proofs/DynamicProofs.vos Proofs/SegProofs.vos
 Properties/C16.vo Properties/C16.glob Properties/C16.v.beautified Properties/C16.required_vo: Properties/C16.v Compiler/Compile.vo Proofs/SrcMapProofs.vo
 Properties/C16.vio: Properties/C16.v Compiler/Compile.vio Proofs/SrcMapProofs.vio
 Properties/C16.vos Properties/C16.vok Properties/C16.required_vos: Properties/C16.v Compiler/Compile.vos Proofs/SrcMapProofs.vos
